@@ -1,7 +1,7 @@
 #!/bin/sh
 # bin/round2.sh <Cxx>  -- self-test helper: for the three round-2 changes in /tmp/mut2-<cxx>/_out,
 # first see whether the property's own quick check catches them, then confirm + store them.
-PID="$1"; l=$(echo "$PID" | tr 'C' 'c'); WT=/tmp/mut2-$l
+PID="$1"; l=$(echo "$PID" | tr 'C' 'c'); WT=${WTROOT:-/tmp/mut2}-$l
 for k in 1 2 3; do
   [ -f "$WT/_out/m$k/patch.diff" ] || continue
   r=$(/verif/bin/mutant_check.sh "$WT" "$WT/_out/m$k/patch.diff" "$PID" quick 2>&1 | head -3 | tr '\n' ' ' | cut -c1-700)
